@@ -41,7 +41,10 @@ def configs(tier):
     for sp in growth_models():
         for g in grids:
             for vol in growth_volumes(tier):
-                out.append(dict(kind='growth', spec=sp, grid=g, vol=vol, safe=False, bound=1 if tier == 'quick' else 2))
+                for t0 in (0.0, 0.5):
+                    if t0 and (tier == 'quick' and g != 'u5'):
+                        continue
+                    out.append(dict(kind='growth', spec=sp, grid=g, vol=vol, safe=False, t0=t0, bound=1 if tier == 'quick' else 2))
     return out
 
 
@@ -56,7 +59,7 @@ def growth_volumes(tier):
     return out
 
 
-def make_volume(vol, impl):
+def make_volume(vol, impl, t0=0.0):
     """build and initialise the real volume object under a scripted stream; returns (object, reference volume spec)"""
     from bioscrape.types import StochasticTimeThresholdVolume, StateDependentVolume
     z = vol['z']
@@ -66,16 +69,16 @@ def make_volume(vol, impl):
     if vol['type'] == 'growth':
         v = StochasticTimeThresholdVolume(vol['cycle'], vol['divvol'], vol['noise'])
         with Stream(script) as st:
-            v.py_initialize(state, params, 0.0, vol['V0'])
+            v.py_initialize(state, params, t0, vol['V0'])
         rate = math.log(2.0) / vol['cycle']
         time_left = math.log(vol['divvol'] / vol['V0']) / rate
         factor = RS.normal_from(script[0], script[1], 1.0, vol['noise'])
-        ref = dict(type='growth', V0=vol['V0'], rate=rate, division_time=0.0 + factor * time_left)
+        ref = dict(type='growth', V0=vol['V0'], rate=rate, division_time=t0 + factor * time_left, t0=t0)
     else:
         v = StateDependentVolume()
         v.setup(vol['divvol'], vol['noise'], EXr(vol['rate_tree']), impl.model)
         with Stream(script) as st:
-            v.py_initialize(state, params, 0.0, vol['V0'])
+            v.py_initialize(state, params, t0, vol['V0'])
         factor = RS.normal_from(script[0], script[1], 1.0, vol['noise'])
         ref = dict(type='state', V0=vol['V0'], rate_tree=vol['rate_tree'], division_volume=vol['divvol'] * factor)
     return v, ref, st.consumed
@@ -88,7 +91,8 @@ def EXr(tree):
 
 def run_config(c, cfg):
     sp = cfg['spec']
-    times = TIMES[cfg['grid']]
+    t0 = cfg.get('t0', 0.0)
+    times = [t0 + t for t in TIMES[cfg['grid']]]
     vdt = times[1] - times[0]
     impl = e1.Impl(sp, cfg['safe'])
     net = RS.Net(sp, 'stochvol', cfg['safe'])
@@ -97,7 +101,7 @@ def run_config(c, cfg):
     if cfg['kind'] == 'const':
         vref = dict(type='const', V=cfg['V'])
     else:
-        _, vref, used = make_volume(cfg['vol'], impl)
+        _, vref, used = make_volume(cfg['vol'], impl, t0)
         if used != 2:
             c.violation('C11/volume-init/draws', 'volume initialisation consumed %d uniforms, expected one normal variate (2)' % used, dict(cfg=cfg))
 
@@ -112,8 +116,8 @@ def run_config(c, cfg):
                         times=[float(z) for z in res.py_get_timepoints()])
         vobj = None
         if cfg['kind'] == 'growth':
-            vobj = make_volume(cfg['vol'], impl)[0]
-        return e1.run_volume(impl, us, times, vdt, vref, volume_obj=vobj)
+            vobj = make_volume(cfg['vol'], impl, t0)[0]
+        return e1.run_volume(impl, us, times, vdt, vref, t0=t0, volume_obj=vobj)
 
     def on_trace(choices, menus, ref):
         got = impl_run(ref['us'])
@@ -145,10 +149,10 @@ def run_config(c, cfg):
         if len(c.samples) < 2 and len(ref['us']) > 2:
             c.sample(dict(network=sp['name'], volume=vref, times=times, letters=case['letters'], rows=ref['rows'], vols=ref['vols'],
                           divided=ref['divided']))
-    EXP.explore(lambda: RS.volume_ssa(net, times, vdt, vref), cfg['bound'], on_trace)
+    EXP.explore(lambda: RS.volume_ssa(net, times, vdt, vref, t0=t0), cfg['bound'], on_trace)
     c.count('states', len(states))
     if len(outcomes) > 1 or cfg['kind'] == 'growth':
-        c.nontrivial((sp['name'], cfg['kind'], str(cfg.get('V')), str(cfg.get('vol')), cfg['grid'], cfg['safe'], cfg.get('route')))
+        c.nontrivial((sp['name'], cfg['kind'], str(cfg.get('V')), str(cfg.get('vol')), cfg['grid'], cfg['safe'], cfg.get('route'), cfg.get('t0')))
 
 
 def growth_invariants(cfg, times, vdt, vref, got):
@@ -162,7 +166,7 @@ def growth_invariants(cfg, times, vdt, vref, got):
     if any(b < a * (1 - 1e-12) for a, b in zip(vols, vols[1:])):
         return 'volume-monotone', 'reported volume decreases: %s' % vols
     if vref['type'] == 'growth':
-        G = lambda t: vref['V0'] * math.exp(vref['rate'] * max(t, 0.0))
+        G = lambda t: vref['V0'] * math.exp(vref['rate'] * max(t - vref.get('t0', 0.0), 0.0))
         for t, v in zip(T, vols):
             lo, hi = G(t - vdt) * (1 - 1e-9), G(t + vdt) * (1 + 1e-9)
             if not (lo <= v <= hi):
@@ -171,8 +175,8 @@ def growth_invariants(cfg, times, vdt, vref, got):
         td = vref['division_time']
         first_div = None
         k = 1
-        while k * vdt <= times[-1] + 1e-12:
-            s = k * vdt
+        while times[0] + k * vdt <= times[-1] + 1e-12:
+            s = times[0] + k * vdt
             if td > s - vdt and td <= s:
                 first_div = s
                 break
@@ -196,7 +200,7 @@ def run(ctx):
     ctx.rule = ('E1+E2: (i) constant volume V: every C05 network (all propensity types, orders 0..3) plus an order-0/order-3 mix, plain '
                 'and safe, through VolumeSSASimulator and through py_simulate_model(volume=V): the choice tree of the reference volume '
                 'sampler (volume-scaled closed-form rates) is explored to the cost bound and every trace replayed; (ii) growth and '
-                'division: StochasticTimeThresholdVolume (cycle times x scripted division-time noise) and StateDependentVolume x grid '
+                'division: StochasticTimeThresholdVolume (cycle times x scripted division-time noise) and StateDependentVolume x start times {0, 0.5} x grid '
                 'steps {0.125,0.25,0.5} x models with no reactions, with reactions, and whose propensity becomes zero mid-run: every '
                 'trace replayed, and the implementation\'s own output checked against the growth law (positive, non-decreasing, within '
                 'one step of V0*2^(t/cycle), ends at the first grid time at which division is reported). states = distinct (state, '
